@@ -21,7 +21,7 @@
      [ESave _ WWindow] requires the client to be done; before the fix the real agent violated the property, see
      findings.d/C05.json). *)
 From Coq Require Import List NArith Bool.
-From SV Require Import Model.Common Model.System Model.SystemAccept Model.SystemOrderCase
+From SV Require Import Model.Common Model.System Model.SystemAccept Model.SystemOrderCase Model.RecoveryOrder Proofs.RecoveryOrderProofs
   Proofs.SystemLists Proofs.SystemProofs Proofs.SystemAlo Proofs.SystemAcceptProofs
   Proofs.SystemOrderLists Proofs.SystemOrder Proofs.SystemOrderTok Proofs.SystemOrderThm Proofs.SystemOrderWitness.
 Import ListNotations.
@@ -83,3 +83,61 @@ Theorem C05_example :
     length (first_occ (delivered 0 1 s)) = 2.
 Proof. exact order_example. Qed.
 Print Assumptions C05_example.
+
+(* ---------- restart / reload seen stepwise: recovery of a backlog interleaved with new chunks (Model/RecoveryOrder.v) ----------
+   [ERestart] of Model/System.v is atomic.  The theorems below are about the code it abstracts: the recovery loop of
+   bufferer.Start queues one listed chunk file per step while the pipeline worker (Accept), the feeder and the consumer
+   run; a run is ANY event list.  [rgood clock seen backlog]: the listing is in id order, below the id clock, its
+   records are per connection in sequence order and bounded by the stamps seen (what C05_recovery_sorted and
+   C05_first_receipts_by_id establish for the files a stop leaves behind). *)
+
+(* For all backlogs, capacities and interleavings, with either start order of the feeder: when Accept is possible only
+   after the recovery loop has ended (Start returns after it - the code as it is), the chunks are handed to the
+   consumer in creation order, every stream (connection, key set) in arrival order, the pending ones are in creation
+   order and each is newer than everything already transmitted. *)
+Theorem C05_restart_recovery_order :
+  forall g v backlog clock seen es s,
+  rv_accept_waits v = true -> rgood clock seen backlog -> rsteps g v (rinit backlog clock seen) es = Some s ->
+  incr (rids (r_out s)) /\ (forall k, incr (rseqs k (rtoks (r_out s)))) /\ incr (rids (rpending s)) /\
+  (forall u q, In u (rids (r_out s)) -> In q (rids (rpending s)) -> u < q).
+Proof. exact recovery_order_lemma. Qed.
+Print Assumptions C05_restart_recovery_order.
+
+(* A chunk created after the restart is never transmitted while a recovered chunk is still undelivered. *)
+Theorem C05_new_chunk_never_overtakes_recovered :
+  forall g v backlog clock seen es s c b,
+  rv_accept_waits v = true -> rgood clock seen backlog -> rsteps g v (rinit backlog clock seen) es = Some s ->
+  In c (r_out s) -> clock < rc_id c -> In b (rpending s) -> clock < rc_id b.
+Proof. exact recovery_new_chunk_waits_lemma. Qed.
+Print Assumptions C05_new_chunk_never_overtakes_recovered.
+
+(* A backlog that fits the queue is recovered completely (the "too many chunk files, skip" branch is not taken). *)
+Theorem C05_recovery_complete_when_backlog_fits :
+  forall g v backlog clock seen es s,
+  rv_accept_waits v = true -> length backlog <= rg_qcap g -> rsteps g v (rinit backlog clock seen) es = Some s ->
+  r_skipped s = [].
+Proof. exact recovery_complete_lemma. Qed.
+Print Assumptions C05_recovery_complete_when_backlog_fits.
+
+(* The recovery loop alone leads to the state of the atomic restart: queue = listing, nothing else moved. *)
+Theorem C05_recovery_loop_is_atomic_restart :
+  forall g v backlog clock seen, length backlog <= rg_qcap g ->
+  rsteps g v (rinit backlog clock seen) (rep (length backlog) [RRecover]) = Some (RS [] backlog [] [] [] [] [] clock seen).
+Proof. exact recovery_sync_is_atomic_lemma. Qed.
+Print Assumptions C05_recovery_loop_is_atomic_restart.
+
+(* The variant with the recovery loop in the feeder goroutine (Accept possible while it runs; seeded change C05/4)
+   violates the statement: witness with two recovered chunks and one new chunk, transmitted as 1, 3, 2. *)
+Theorem C05_async_recovery_variant_refuted :
+  exists g backlog clock seen es s,
+    rgood clock seen backlog /\ length backlog <= rg_qcap g /\ rsteps g rv_seeded (rinit backlog clock seen) es = Some s /\
+    rids (r_out s) = [1; 3; 2] /\ ~ incr (rids (r_out s)) /\ ~ incr (rseqs 0 (rtoks (r_out s))).
+Proof. exact recovery_seeded_variant_refuted_lemma. Qed.
+Print Assumptions C05_async_recovery_variant_refuted.
+
+(* Non-vacuity: a run of the code as it is over a backlog of two chunks with two new chunks. *)
+Theorem C05_recovery_example :
+  exists es s, rgood 2 [(0, 1)] seeded_backlog /\ rsteps (RCFG 8 1) rv_real (rinit seeded_backlog 2 [(0, 1)]) es = Some s /\
+    rids (r_out s) = [1; 2; 3; 5] /\ rseqs 0 (rtoks (r_out s)) = [0; 1; 2; 3; 4] /\ rpending s = [].
+Proof. exact recovery_example_lemma. Qed.
+Print Assumptions C05_recovery_example.
